@@ -20,6 +20,12 @@
    judged only while the model vouches for its chibicc side(s); probe extensions (one more S24 after a
    variadic fetch, one more long and double after a named parameter) and one representative per
    stratum of fetch / exhaustion situations make the state a step leaves behind observable.
+3. Small models beside the allocator graph (each with a sensitivity control that TLC must reject), every emitted
+   behaviour replayed in every tier: ArgConv (argument conversion), RetSlot / RetTemps (memory of returned
+   aggregates), FpCtl (x87 control word), ArgEval (source form of every argument and of the designator x code
+   model: default executable / -fPIC shared object), NarrowRet (narrow return value x place of the callee's
+   definition x how the callee leaves the bits above the value); the same-translation-unit composition of
+   every parameter kind and every return kind.
 """
 import json, os, subprocess
 import vt
@@ -41,8 +47,21 @@ KT = {  # name -> scalar kind | ("struct"|"union", [(scalar kind, array length o
     "Sdf": ("struct", [("double", 0), ("float", 0)]), "Sfic": ("struct", [("float", 0), ("int", 0), ("char", 0)]),
     "Sc17": ("struct", [("char", 17)]), "Sddd": ("struct", [("double", 0)] * 3),
     "See": ("struct", [("ldouble", 0)] * 2), "Sel": ("struct", [("ldouble", 0), ("long", 0)]),
+    # zero-sized aggregates (GNU C) and aggregates with an empty member; a member (kind name, 0) is a nested aggregate,
+    # (scalar, -1) a zero-length array
+    "S0": ("struct", []), "U0": ("union", []), "S0w": ("struct", [("S0", 0)]), "Sz": ("struct", [("int", -1)]),
+    "S0i": ("struct", [("S0", 0), ("int", 0)]), "Sd0": ("struct", [("double", 0), ("S0", 0)]),
+    "Siif": ("struct", [("int", 0), ("int", 0), ("float", 0)]),
+    # packed aggregates (third element "packed"): Pcf / Pcd have an unaligned field (psABI: class MEMORY), Pic has not;
+    # over-aligned aggregates: a member (kind, n, alignment) is declared _Alignas(alignment) - 16 bytes, the second
+    # eightbyte is padding only (class NO_CLASS: no register)
+    "Pcf": ("struct", [("char", 0), ("float", 0)], "packed"), "Pcd": ("struct", [("char", 0), ("double", 0)], "packed"),
+    "Pic": ("struct", [("int", 0), ("char", 0)], "packed"),
+    "Al": ("struct", [("long", 0, 16)]), "Ad": ("struct", [("double", 0, 16)]),
     "v": "void", "b": "bool", "c": "char", "uc": "uchar", "s": "short", "us": "ushort",
 }
+ZERO = {"S0", "U0", "S0w", "Sz"}
+STRADDLE = {"Pcd"}
 NARROW = {"b": (8, False), "c": (8, True), "uc": (8, False), "s": (16, True), "us": (16, False)}
 
 
@@ -56,8 +75,9 @@ def typedefs():
     for k, t in KT.items():
         if isinstance(t, str):
             continue
-        ms = "".join(" %s m%d%s;" % (SCALAR_C[sk], i, "[%d]" % n if n else "") for i, (sk, n) in enumerate(t[1]))
-        out.append("typedef %s {%s } K_%s;" % (t[0], ms, k))
+        ms = "".join(" %s%s m%d%s;" % ("_Alignas(%d) " % m[2] if len(m) > 2 else "", SCALAR_C.get(m[0]) or "K_" + m[0], i, "[%d]" % max(m[1], 0) if m[1] else "")
+                     for i, m in enumerate(t[1]))
+        out.append("typedef %s%s {%s } K_%s;" % (t[0], " __attribute__((packed))" if len(t) > 2 else "", ms, k))
     return "\n".join(out) + "\n"
 
 
@@ -66,11 +86,15 @@ def leaves(k):
     t = KT[k]
     if isinstance(t, str):
         return [("", t)]
-    if t[0] == "union":                 # Udl: the long overlays m0[0]; m0[1] is the second eightbyte
+    if k == "Udl":                      # Udl: the long overlays m0[0]; m0[1] is the second eightbyte
         return [(".m1", "long"), (".m0[1]", "double")]
     out = []
-    for i, (sk, n) in enumerate(t[1]):
-        out += [(".m%d[%d]" % (i, j), sk) for j in range(n)] if n else [(".m%d" % i, sk)]
+    for i, m in enumerate(t[1]):
+        sk, n = m[0], m[1]
+        if sk in KT:                    # nested aggregate member
+            out += [(".m%d%s" % (i, sfx), lk) for sfx, lk in leaves(sk)]
+        elif n >= 0:                    # (n = -1: zero-length array, no element to set or report)
+            out += [(".m%d[%d]" % (i, j), sk) for j in range(n)] if n else [(".m%d" % i, sk)]
     return out
 
 
@@ -112,10 +136,22 @@ PROBE = "S24"
 NPROBE = ["l", "d"]
 
 
+PLACES = ["arg:end", "arg:start", "ret:end", "ret:start", "dst:end", "dst:start"]
+WHERE = dict(end=1, start=2)
+
+
 class Case:
-    def __init__(self, n, b, ctx="d0", fwd=False, probe=False):
-        self.n, self.b, self.ctx, self.fwd, self.probe = n, b, ctx, fwd, probe
+    """place = "<site>:<where>": the objects of one site do not live in a stack frame but at a page boundary -
+    `end`: the object's last byte is the last byte of a page and the next page is inaccessible, `start`: its
+    first byte is the first of a page and the page before is inaccessible.  Sites: `arg` the caller's by-value
+    argument objects (f( *p)), `ret` the object the callee returns (return *p), `dst` the objects the results are
+    assigned to ( *p = f(..), *p = va_arg(..)).  Level A: an access to an object of n bytes touches [addr, addr+n),
+    so nothing changes; an access that is wider than the object, or starts before it, faults."""
+    def __init__(self, n, b, ctx="d0", fwd=False, probe=False, place=None, same=False):
+        self.n, self.b, self.ctx, self.fwd, self.probe, self.place = n, b, ctx, fwd, probe, place
+        self.same = same         # caller and callee in ONE translation unit (the callers' file), compiled by one compiler
         self.ret, self.args, self.nfix = b["ret"], list(b["args"]), b["nfix"]
+        self.site, self.where = place.split(":") if place else (None, None)
         if probe and self.nfix < len(self.args):   # the spec says a further 24-byte struct is passed and fetched without disagreement
             self.args.append(PROBE)
         elif probe:                                # ... a further long and double parameter are placed without disagreement
@@ -125,11 +161,21 @@ class Case:
 
     def key(self):
         return "%s(%s%s)%s%s" % (self.ret, ",".join(self.args[:self.nfix]), (",...," + ",".join(self.args[self.nfix:])) if self.var else "",
-                                 self.ctx, ":fwd" if self.fwd else "") + (":probe" if self.probe else "")
+                                 self.ctx, ":fwd" if self.fwd else "") + (":probe" if self.probe else "") + (":@" + self.place if self.place else "") + (":same" if self.same else "")
+
+    def pkind(self):
+        """the kind whose object sits at the page boundary (names the case in a signature)"""
+        plain_ret = self.ret != "v" and self.ret not in NARROW
+        if self.site == "ret" or (self.site == "dst" and plain_ret and not self.var):
+            return self.ret
+        return self.args[-1] if self.args else self.ret
+
+    def pg(self, k):
+        return "pgalloc(sizeof(%s), %d)" % (ctype(k), WHERE[self.where])
 
     def proto(self, name, names=False):
         ps = ["%s%s" % (ctype(k), " a%d" % i if names else "") for i, k in enumerate(self.args[:self.nfix])]
-        return "%s %s(%s%s)" % (ctype(self.ret), name, ", ".join(ps), ", ..." if self.var else "")
+        return "%s %s(%s%s)" % (ctype(self.ret), name, ", ".join(ps) or "void", ", ..." if self.var else "")
 
     # --- expected report lines
     def exp_args(self, lo, hi):
@@ -157,12 +203,15 @@ class Case:
         if self.fwd:
             e["w"] = self.exp_args(self.nfix, len(self.args))
         e["r"] = [1] + self.exp_ret() + [self.exp_sink()]
-        if RAXPROBE[0] and self.b.get("hidden"):
+        if RAXPROBE[0] and self.b.get("hidden") and not self.same:
             e["x"] = [1]
         return e
 
     # --- callee
     def callee_c(self):
+        return "" if self.same else self.callee_text()
+
+    def callee_text(self):
         n, L = self.n, []
         if self.fwd:
             L.append("void walk_%d(va_list ap);" % n)
@@ -175,11 +224,15 @@ class Case:
             L.append("  va_list ap; va_start(ap, a%d);" % (self.nfix - 1))
             if not self.fwd:
                 for i in range(self.nfix, len(self.args)):
-                    L.append("  %s a%d; a%d = va_arg(ap, %s);" % (ctype(self.args[i]), i, i, ctype(self.args[i])))
+                    if self.site == "dst":
+                        L.append("  %s *pa%d = %s; *pa%d = va_arg(ap, %s);" % (ctype(self.args[i]), i, self.pg(self.args[i]), i, ctype(self.args[i])))
+                    else:
+                        L.append("  %s a%d; a%d = va_arg(ap, %s);" % (ctype(self.args[i]), i, i, ctype(self.args[i])))
         nrep = self.nfix if self.fwd else len(self.args)
         for i in range(nrep):
+            an = "(*pa%d)" % i if (self.site == "dst" and i >= self.nfix) else "a%d" % i
             for sfx, sk in leaves(self.args[i]):
-                L.append("  rec(%s);" % report_expr("a%d%s" % (i, sfx), sk))
+                L.append("  rec(%s);" % report_expr(an + sfx, sk))
         L.append("  ALIGNPROBE; flush(\"c\", %d);" % n)
         if self.fwd:
             L.append("  walk_%d(ap);" % n)
@@ -189,6 +242,11 @@ class Case:
             pass
         elif self.ret in NARROW:
             L.append("  return dirty_%d();" % n)
+        elif self.site == "ret":
+            L.append("  %s *pr = %s;" % (ctype(self.ret), self.pg(self.ret)))
+            for j, (sfx, sk) in enumerate(leaves(self.ret)):
+                L.append("  (*pr)%s = %s;" % (sfx, lit(sk, vnum(15, j))[0]))
+            L.append("  return *pr;")
         else:
             L.append("  %s r;" % ctype(self.ret))
             for j, (sfx, sk) in enumerate(leaves(self.ret)):
@@ -208,22 +266,28 @@ class Case:
                 for sfx, sk in leaves(self.args[i]):
                     L.append("  rec(%s);" % report_expr("a%d%s" % (i, sfx), sk))
             L.append("  flush(\"w\", %d);\n}" % n)
-        raxp = RAXPROBE[0] and self.b.get("hidden")
+        A = ["(*pa%d)" % i if self.site == "arg" else "a%d" % i for i in range(len(self.args))]
+        R = "(*pr)" if (self.site == "dst" and self.ret != "v" and self.ret not in NARROW) else "r"
+        raxp = RAXPROBE[0] and self.b.get("hidden") and not self.same
         if raxp:     # the same function seen as `long f(void *hidden, args...)`: for a MEMORY-class return that is the same call
             ps = ["void *"] + [ctype(k) for k in self.args[:self.nfix]]
             L.append("#ifdef GCC_SIDE\nextern long raxp_%d(%s%s) __asm__(\"callee_%d\");\n#endif" % (n, ", ".join(ps), ", ..." if self.var else "", n))
         L.append("void caller_%d(void) {" % n)
+        if self.place:
+            L.append("  pgreset();")
         for i, k in enumerate(self.args):
-            L.append("  %s a%d;" % (ctype(k), i))
+            L.append("  %s *pa%d = %s;" % (ctype(k), i, self.pg(k)) if self.site == "arg" else "  %s a%d;" % (ctype(k), i))
             for j, (sfx, sk) in enumerate(leaves(k)):
-                L.append("  a%d%s = %s;" % (i, sfx, lit(sk, vnum(i, j))[0]))
-        call = "callee_%d(%s)" % (n, ", ".join("a%d" % i for i in range(len(self.args))))
-        inner = "(%s, 1L)" % call if self.ret == "v" else "((r = %s), 1L)" % call
-        if self.ret != "v":        # a narrow return value is consumed as a long, without a store to a narrow object in between
+                L.append("  %s%s = %s;" % (A[i], sfx, lit(sk, vnum(i, j))[0]))
+        call = "callee_%d(%s)" % (n, ", ".join(A))
+        inner = "(%s, 1L)" % call if self.ret == "v" else "((%s = %s), 1L)" % (R, call)
+        if R != "r":
+            L.append("  %s *pr = %s;" % (ctype(self.ret), self.pg(self.ret)))
+        elif self.ret != "v":      # a narrow return value is consumed as a long, without a store to a narrow object in between
             L.append("  %s r;" % ("long" if self.ret in NARROW else ctype(self.ret)))
         if raxp:
             L.append("#ifdef GCC_SIDE\n  { %s rb; rec(raxp_%d(%s) == (long)&rb); }\n#else\n  rec(1);\n#endif\n  flush(\"x\", %d);"
-                     % (ctype(self.ret), n, ", ".join(["&rb"] + ["a%d" % i for i in range(len(self.args))]), n))
+                     % (ctype(self.ret), n, ", ".join(["&rb"] + A), n))
         L.append("  long sink; SAVE_REGS;")
         if self.ctx == "nest":
             L.append("  sink = id3(vv1, %s, vv2);" % inner)
@@ -235,8 +299,10 @@ class Case:
         L.append("  CHECK_REGS;")
         if self.ret != "v":
             for sfx, sk in leaves(self.ret):
-                L.append("  rec(%s);" % report_expr("r" + sfx, sk))
+                L.append("  rec(%s);" % report_expr(R + sfx, sk))
         L.append("  rec(sink); flush(\"r\", %d);\n}" % n)
+        if self.same:            # the callee's definition follows the call (odd n: precedes it) in the same translation unit
+            return ("\n".join(L) + "\n" + self.callee_text()) if n % 2 == 0 else (L[0] + "\n" + self.callee_text() + "\n".join(L[1:]) + "\n")
         return "\n".join(L) + "\n"
 
 
@@ -503,6 +569,219 @@ class FpCase:
         return self.key()
 
 
+# ------------------------------------------------------------------ source form of the arguments x code model (ArgEval.tla)
+SRC_KIND = dict(gp="l", fp="d", gg="Sll", gf="Sld", mem="S24")
+
+
+class SrcCase:
+    """one call whose arguments (and designator) have the source forms ArgEval.tla emitted; mode pic = the caller is
+    compiled with -fPIC and lives in a shared object.  Every function called while an argument is evaluated
+    (idk_*, getfp_*) overwrites all registers that are not callee-saved (scrub), as any function may."""
+    RET = 77 * 0x0101010101010101
+
+    def __init__(self, b):
+        self.n, self.b, self.mode, self.desig = 0, b, b["mode"], b["desig"]
+        self.items = [(SRC_KIND[a["cls"]], a["src"]) for a in b["args"]]
+        self.args = [k for k, _ in self.items]
+
+    def key(self):
+        return "argsrc:%s:%s:%s" % (self.mode, self.desig, ",".join("%s.%s" % it for it in self.items))
+
+    def sig(self):
+        act = sorted({"%s.%s" % it for it in self.items if it[1] != "local"})
+        return "%s:%s:%s" % (self.mode, self.desig, "+".join(act) or "locals")
+
+    def asm_shared(self):
+        return SCRUB_S
+
+    def proto(self, name):
+        return "long %s(%s)" % (name, ", ".join("%s a%d" % (ctype(k), i) for i, k in enumerate(self.args)))
+
+    def callee_c(self):
+        n, L = self.n, []
+        for i, (k, src) in enumerate(self.items):
+            if src == "call":
+                L.append("%s idk_%d_%d(%s x) { scrub(); return x; }" % (ctype(k), n, i, ctype(k)))
+        L.append(self.proto("callee_%d" % n) + " {")
+        for i, k in enumerate(self.args):
+            for sfx, sk in leaves(k):
+                L.append("  rec(%s);" % report_expr("a%d%s" % (i, sfx), sk))
+        L.append("  ALIGNPROBE; flush(\"c\", %d);\n  return %dL;\n}" % (n, self.RET))
+        if self.desig == "callptr":
+            L.append("typedef long (*FT_%d)(%s);\nFT_%d getfp_%d(void) { scrub(); return callee_%d; }" % (n, ", ".join(ctype(k) for k in self.args), n, n, n))
+        return "\n".join(L) + "\n"
+
+    def caller_c(self):
+        n, L, E = self.n, [], []
+        L.append(self.proto("callee_%d" % n) + ";")
+        L.append("typedef long (*FT_%d)(%s);" % (n, ", ".join(ctype(k) for k in self.args)))
+        for i, (k, src) in enumerate(self.items):
+            K = ctype(k)
+            if src == "global":
+                L.append("%s g_%d_%d;" % (K, n, i))
+            elif src == "tls":         # alternately internal and external linkage: both are general-dynamic under -fPIC
+                L.append("%s_Thread_local %s t_%d_%d;" % ("static " if i % 2 else "", K, n, i))
+            elif src == "call":
+                L.append("%s idk_%d_%d(%s);" % (K, n, i, K))
+        if self.desig == "tlsptr":
+            L.append("static _Thread_local FT_%d tfp_%d;" % (n, n))
+        elif self.desig == "callptr":
+            L.append("FT_%d getfp_%d(void);" % (n, n))
+        L.append("void caller_%d(void) {" % n)
+        for i, (k, src) in enumerate(self.items):
+            K = ctype(k)
+            L.append("  %s a%d;" % (K, i))
+            for j, (sfx, sk) in enumerate(leaves(k)):
+                L.append("  a%d%s = %s;" % (i, sfx, lit(sk, vnum(i, j))[0]))
+            if src == "local":
+                E.append("a%d" % i)
+            elif src == "const":
+                E.append(lit(KT[k], vnum(i, 0))[0])
+            elif src == "global":
+                L.append("  g_%d_%d = a%d;" % (n, i, i))
+                E.append("g_%d_%d" % (n, i))
+            elif src == "tls":
+                L.append("  t_%d_%d = a%d;" % (n, i, i))
+                E.append("t_%d_%d" % (n, i))
+            elif src == "call":
+                E.append("idk_%d_%d(a%d)" % (n, i, i))
+            elif src == "arith":
+                E.append("((a%d + vz) / vone << vz)" % i if k == "l" else "((a%d + vzd) * voned)" % i)
+            elif src == "deref":
+                L.append("  %s *p%d = &a%d;" % (K, i, i))
+                E.append("*p%d" % i)
+            elif src == "assign":
+                L.append("  %s b%d;" % (K, i))
+                E.append("(b%d = a%d)" % (i, i))
+            else:
+                raise KeyError(src)
+        if self.desig == "direct":
+            f = "callee_%d" % n
+        elif self.desig == "ptr":
+            L.append("  FT_%d fp = callee_%d;" % (n, n))
+            f = "fp"
+        elif self.desig == "tlsptr":
+            L.append("  tfp_%d = callee_%d;" % (n, n))
+            f = "tfp_%d" % n
+        else:
+            f = "getfp_%d()" % n
+        L.append("  long r; SAVE_REGS;\n  r = %s(%s);\n  CHECK_REGS; rec(r); flush(\"r\", %d);\n}" % (f, ", ".join(E), n))
+        return "\n".join(L) + "\n"
+
+    def expected(self):
+        c = []
+        for i, k in enumerate(self.args):
+            c += [lit(sk, vnum(i, j))[1] for j, (_, sk) in enumerate(leaves(k))]
+        return {"c": c + [0], "r": [1, self.RET]}
+
+    def describe(self, got, exp):
+        return self.key()
+
+
+# ------------------------------------------------------------------ narrow return values (NarrowRet.tla)
+class NarrowCase:
+    """all emitted vectors of one (type, place of the callee's definition, producer).  The caller consumes the value
+    as a long; expected = the extension of the low bits by the type (Level A)."""
+    def __init__(self, ty, place, prod, vecs):
+        self.n, self.ty, self.place, self.prod = 0, ty, place, prod
+        self.vecs = sorted({(v["v"], v["nv"], v["up"]) for v in vecs})
+        self.args = [ty]
+        self.w = 16 if ty in ("short", "ushort") else 8
+        self.samefile = place.startswith("same")
+
+    def key(self):
+        return "narrowret:%s:%s:%s" % (self.place, self.prod, self.ty)
+
+    def image(self, v, up):
+        """the register an asm / foreign callee returns with: value in the low bits, the pattern in bits w..31, junk above"""
+        hi = dict(zeros=0, ones=0xffffffff, junk=0x5a5a5a5a)[up] >> self.w << self.w & 0xffffffff
+        return 0xa5a5a5a5 << 32 | hi | v
+
+    def fname(self, k=None):
+        return "nr_%d" % self.n + ("_%d" % k if k is not None else "")
+
+    def params(self):
+        T = INT_C[self.ty]
+        return dict(conv="long", fwd="long", exch="%s, %s" % (T, T), asm="void", ref="void")[self.prod]
+
+    def defs(self):
+        """the callee definition(s), in C"""
+        T, n = INT_C[self.ty], self.n
+        st = "static NOINLINE " if self.place == "samestatic" else ""
+        if self.prod == "conv":
+            return "%s%s %s(long x) { return (%s)x; }\n" % (st, T, self.fname(), T)
+        if self.prod == "fwd":
+            return "%s%s %s(long x) { return nrg_%d(x); }\n" % (st, T, self.fname(), n)
+        if self.prod == "exch":
+            return "%s%s %s(%s o, %s nv) { static _Atomic %s obj; obj = o; return atomic_exchange(&obj, nv); }\n" % (st, T, self.fname(), T, T, T)
+        if self.prod == "asm":       # the function returns from its asm statement (test/asm.c's idiom; gcc: a naked function)
+            out = []
+            for k, (v, _, up) in enumerate(self.vecs):
+                out.append("#ifdef GCC_SIDE\n%s__attribute__((naked)) %s %s(void) { __asm__(\"movabs $%d, %%rax\\n\\tret\"); }\n#else\n"
+                           "%s%s %s(void) { asm(\"movabs $%d, %%rax\\n\\tmov %%rbp, %%rsp\\n\\tpop %%rbp\\n\\tret\"); }\n#endif\n"
+                           % (st.replace("NOINLINE ", ""), T, self.fname(k), self.image(v, up), st.replace("NOINLINE ", ""), T, self.fname(k), self.image(v, up)))
+            return "".join(out)
+        return ""                    # ref: assembly
+
+    def protos(self):
+        T = INT_C[self.ty]
+        st = "static " if self.place == "samestatic" else ""
+        names = [self.fname(k) for k in range(len(self.vecs))] if self.prod in ("asm", "ref") else [self.fname()]
+        return "".join("%s%s %s(%s);\n" % (st, T, f, self.params()) for f in names)
+
+    def asm_s(self):
+        if self.prod != "ref":
+            return ""
+        return "".join(".text\n.globl %s\n.type %s, @function\n%s:\n  movabs $%d, %%rax\n  ret\n" % (self.fname(k), self.fname(k), self.fname(k), self.image(v, up))
+                       for k, (v, _, up) in enumerate(self.vecs))
+
+    def callee_c(self):
+        T, n = INT_C[self.ty], self.n
+        g = "%s nrg_%d(long x) { return (%s)x; }\n" % (T, n, T) if self.prod == "fwd" else ""      # always in the other file
+        return g + ("" if self.samefile else self.defs())
+
+    def arg(self, v, nv):
+        if self.prod in ("conv", "fwd"):     # bits above the type's width are set (not for _Bool: conversion is != 0)
+            return "%dL" % s64(v if self.ty == "bool" else (0x5a5a5a5a5a5a5a5a >> self.w << self.w | v))
+        if self.prod == "exch":
+            return "(%s)%d, (%s)%d" % (INT_C[self.ty], v, INT_C[self.ty], nv)
+        return ""
+
+    def caller_c(self):
+        T, n = INT_C[self.ty], self.n
+        L = [self.protos().rstrip("\n")]
+        if self.prod == "fwd":
+            L.append("%s nrg_%d(long);" % (T, n))
+        if self.place == "samestatic":
+            L.append(self.defs().rstrip("\n"))
+        L.append("void caller_%d(void) {" % n)
+        ptr = self.place.endswith("ptr")
+        for k, (v, nv, up) in enumerate(self.vecs):
+            f = self.fname(k if self.prod in ("asm", "ref") else None)
+            if ptr:
+                L.append("  { %s (*volatile fp)(%s) = %s; long r = fp(%s); rec(r); }" % (T, self.params(), f, self.arg(v, nv)))
+            else:
+                L.append("  { long r = %s(%s); rec(r); }" % (f, self.arg(v, nv)))
+        L.append("  flush(\"r\", %d);\n}" % n)
+        if self.samefile and self.place != "samestatic":      # external linkage, defined after the call
+            L.append(self.defs().rstrip("\n"))
+        return "\n".join(L) + "\n"
+
+    def ext(self, v):
+        if self.ty in INT_SIGNED and v >> (self.w - 1):
+            return v - (1 << self.w)
+        return v
+
+    def expected(self):
+        return {"r": [self.ext(v) for v, _, _ in self.vecs]}
+
+    def describe(self, got, exp):
+        for i, (g, e) in enumerate(zip(got + [None] * len(exp), exp)):
+            if g != e:
+                return "%s vector (value %d, new value %d, bits above: %s): consumed %s" % ((self.key(),) + self.vecs[i] + (g,))
+        return self.key()
+
+
 def judge_simple(ctx, case, results, family):
     """cases whose expectation the spec fixes completely: all three linkings with a chibicc side must match; gcc x gcc is the tie-break"""
     exp = case.expected()
@@ -527,7 +806,7 @@ def judge_simple(ctx, case, results, family):
         what = bad(r)
         if what:
             got = r[1].get(what, []) if r and r[0] == "ok" else []
-            ctx.report("replay:%s>%s:%s:%s" % (l[0], l[1], family, case.key().split(":", 1)[1]),
+            ctx.report("replay:%s>%s:%s:%s" % (l[0], l[1], family, case.sig() if hasattr(case, "sig") else case.key().split(":", 1)[1]),
                        "%s linked %s>%s: %s; expected %s got %s" % (case.key(), l[0], l[1], case.describe(got, exp.get(what, [])), str(exp)[:300], str(r)[:300]),
                        case=dict(kind=family, key=case.key(), linking="%s>%s" % l, expected=exp, got=str(r)[:1500]))
     ctx.cov["traces_validated_against_impl"] += 3
@@ -538,6 +817,7 @@ int printf(const char *, ...);
 int fflush(void *);
 int atoi(const char *);
 #include <stdarg.h>
+#include <stdatomic.h>
 #ifdef GCC_SIDE
 #define NOINLINE __attribute__((noinline))
 typedef float v4sf __attribute__((vector_size(16)));
@@ -546,6 +826,7 @@ typedef float v4sf __attribute__((vector_size(16)));
 #define NOINLINE
 #define ALIGNPROBE rec(0)
 #endif
+void *pgalloc(long, int); void pgreset(void);
 static long recbuf[96]; static int nrec;
 static void rec(long v) { if (nrec < 96) recbuf[nrec++] = v; }
 static void flush(const char *tag, int id) {
@@ -579,18 +860,41 @@ static inline void set_mx_(unsigned m) { unsigned a; __asm__ volatile("stmxcsr %
 #endif
 volatile long vv1 = 1000, vv2 = 2000, vv3 = 3000;
 long id3(long, long, long);
+extern volatile long dirtybase, vz, vone; extern volatile double vzd, voned;
+void scrub(void);
 """
 CALLEE_PRE = r"""
+void *mmap(void *, unsigned long, int, int, int, long);
+int mprotect(void *, unsigned long, int);
+int munmap(void *, unsigned long);
+static char *pgmap[64]; static int npg;
+/* an object of n bytes at a page boundary: where = 1 its last byte is the last byte of a page and the page behind
+   it is inaccessible; where = 2 its first byte is the first byte of a page and the page before it is inaccessible */
+void *pgalloc(long n, int where) {
+  char *m = mmap(0, 3 * 4096, 0, 0x22, -1, 0);          /* PROT_NONE, MAP_PRIVATE | MAP_ANONYMOUS */
+  mprotect(m + 4096, 4096, 3);
+  if (npg < 64) pgmap[npg++] = m;
+  return where == 1 ? m + 8192 - n : m + 4096;
+}
+void pgreset(void) { while (npg) munmap(pgmap[--npg], 3 * 4096); }
 volatile long dirtybase = 0x5a5a5a5a5a5a0000;
+volatile long vz = 0, vone = 1; volatile double vzd = 0.0, voned = 1.0;
 long id3(long a, long b, long c) { return a + b + c; }
+void scrub(void);
 """
+# every register a function need not preserve (psABI 3.2.1) is overwritten: a callee is free to do exactly this
+SCRUB_S = (".text\n.globl scrub\n.type scrub, @function\nscrub:\n  movabs $0x6b6b6b6b6b6b6b6b, %rax\n"
+           + "".join("  mov %%rax, %%%s\n" % r for r in ("rcx", "rdx", "rsi", "rdi", "r8", "r9", "r10", "r11"))
+           + "".join("  movq %%rax, %%xmm%d\n" % i for i in range(16)) + "  ret\n")
+STUB_C = "int cases_main(int, char **); int main(int argc, char **argv) { return cases_main(argc, argv); }\n"
 
 
 def batch_sources(cases):
     td = typedefs()
     callers = COMMON + td + CALLER_PRE + "".join(c.caller_c() for c in cases)
     callers += "static void (*tab[])(void) = {%s};\n" % ", ".join("caller_%d" % c.n for c in cases)
-    callers += "int main(int argc, char **argv) { for (int i = argc > 1 ? atoi(argv[1]) : 0; i < %d; i++) tab[i](); return 0; }\n" % len(cases)
+    callers += "#ifndef MAIN_NAME\n#define MAIN_NAME main\n#endif\n"
+    callers += "int MAIN_NAME(int argc, char **argv) { for (int i = argc > 1 ? atoi(argv[1]) : 0; i < %d; i++) tab[i](); return 0; }\n" % len(cases)
     callees = COMMON + td + CALLEE_PRE + "".join(c.callee_c() for c in cases)
     return callers, callees
 
@@ -598,19 +902,23 @@ def batch_sources(cases):
 LINKINGS = [("cc", "cc"), ("cc", "gcc"), ("gcc", "cc"), ("gcc", "gcc")]
 
 
-def compile_one(tree, comp, src, obj):
+def compile_one(tree, comp, src, obj, pic=False):
     if comp == "cc":
         cmd = [tree + "/chibicc", "-I" + tree + "/include", "-c", "-o", obj, src]
     else:
         cmd = ["gcc", "-O1", "-w", "-DGCC_SIDE", "-fno-omit-frame-pointer", "-c", "-o", obj, src]
+    if pic:          # position-independent code for a shared object
+        cmd[1:1] = ["-fPIC", "-DMAIN_NAME=cases_main"]
     p = vt.run_limited(cmd, timeout=300, mem_gb=4)      # chibicc, or gcc on generated text
     if p.returncode == -999:
         return "timeout"
     return None if p.returncode == 0 and os.path.exists(obj) else (p.stderr[-400:] or "rc=%d" % p.returncode)
 
 
-def run_batch(ctx, tree, cases, d):
-    """-> {id(case): {linking: ("ok", {tag: [ints]}) | ("compile", side, msg) | ("crash", rc, partial)}}"""
+def run_batch(ctx, tree, cases, d, pic=False):
+    """-> {id(case): {linking: ("ok", {tag: [ints]}) | ("compile", side, msg) | ("crash", rc, partial)}}
+    pic: both files are compiled with -fPIC and linked into ONE SHARED OBJECT (the linker relaxes nothing there:
+    general-dynamic TLS accesses stay calls of __tls_get_addr, globals go through the GOT); a stub executable calls it."""
     os.makedirs(d, exist_ok=True)
     for i, c in enumerate(cases):
         c.n = i
@@ -618,7 +926,7 @@ def run_batch(ctx, tree, cases, d):
     open(d + "/callers.c", "w").write(callers)
     open(d + "/callees.c", "w").write(callees)
     extra = []
-    asm = "".join(c.asm_s() for c in cases if hasattr(c, "asm_s"))
+    asm = "".join(sorted({c.asm_shared() for c in cases if hasattr(c, "asm_shared")})) + "".join(c.asm_s() for c in cases if hasattr(c, "asm_s"))
     if asm:          # callees written directly in assembly (a callee flavour no available compiler emits)
         open(d + "/extra.s", "w").write(asm + '\n.section .note.GNU-stack,"",@progbits\n')
         p = vt.sh(["gcc", "-c", "-o", d + "/extra.o", d + "/extra.s"], timeout=60)
@@ -628,7 +936,7 @@ def run_batch(ctx, tree, cases, d):
     err = {}
     for comp in ("cc", "gcc"):
         for f in ("callers", "callees"):
-            e = compile_one(tree, comp, "%s/%s.c" % (d, f), "%s/%s.%s.o" % (d, f, comp))
+            e = compile_one(tree, comp, "%s/%s.c" % (d, f), "%s/%s.%s.o" % (d, f, comp), pic)
             if e:
                 if comp == "gcc":
                     raise Infra("gcc rejects a generated file (%s/%s.c): %s" % (d, f, e))
@@ -636,16 +944,29 @@ def run_batch(ctx, tree, cases, d):
     res = {id(c): {} for c in cases}
     if err and len(cases) > 1:                    # find the case(s) chibicc cannot compile
         h = len(cases) // 2
-        res.update(run_batch(ctx, tree, cases[:h], d + "a"))
-        res.update(run_batch(ctx, tree, cases[h:], d + "b"))
+        res.update(run_batch(ctx, tree, cases[:h], d + "a", pic))
+        res.update(run_batch(ctx, tree, cases[h:], d + "b", pic))
         return res
+    if pic:
+        open(d + "/stub.c", "w").write(STUB_C)
+        p = vt.sh(["gcc", "-c", "-o", d + "/stub.o", d + "/stub.c"], timeout=60)
+        if p.returncode:
+            raise Infra("stub: " + p.stderr[-400:])
     for l in LINKINGS:
         bad = [f for f in err if (f == "callers" and l[0] == "cc") or (f == "callees" and l[1] == "cc")]
         if bad:
             res[id(cases[0])][l] = ("compile", bad[0], err[bad[0]])
             continue
         exe = "%s/t.%s.%s" % (d, l[0], l[1])
-        p = vt.sh(["gcc", "-no-pie", "-o", exe, "%s/callers.%s.o" % (d, l[0]), "%s/callees.%s.o" % (d, l[1])] + extra, timeout=120)
+        objs = ["%s/callers.%s.o" % (d, l[0]), "%s/callees.%s.o" % (d, l[1])] + extra
+        if pic:
+            so = "%s/libt.%s.%s.so" % (d, l[0], l[1])
+            p = vt.sh(["gcc", "-shared", "-o", so] + objs, timeout=120)
+            if p.returncode:
+                raise Infra("link (shared object) failed: " + p.stderr[-400:])
+            p = vt.sh(["gcc", "-o", exe, d + "/stub.o", so, "-Wl,-rpath," + d], timeout=120)
+        else:
+            p = vt.sh(["gcc", "-no-pie", "-o", exe] + objs, timeout=120)
         if p.returncode:
             raise Infra("link failed: " + p.stderr[-400:])
         start = 0
@@ -674,12 +995,12 @@ def run_batch(ctx, tree, cases, d):
     return res
 
 
-def run_cases(ctx, tree, cases, tag, size=120):
+def run_cases(ctx, tree, cases, tag, size=120, pic=False):
     """compile/run all cases in batches; returns {id(case): {linking: result}}"""
     batches = [cases[i:i + size] for i in range(0, len(cases), size)]
     root = ctx.tmp("b-" + tag)
     allres = {}
-    for r in vt.pmap(lambda t: run_batch(ctx, tree, list(t[1]), "%s/%d" % (root, t[0])), list(enumerate(batches)), workers=6):
+    for r in vt.pmap(lambda t: run_batch(ctx, tree, list(t[1]), "%s/%d" % (root, t[0]), pic), list(enumerate(batches)), workers=6):
         allres.update(r)
     return allres
 
@@ -721,10 +1042,15 @@ def judge(ctx, case, results):
     if not case.fwd:
         predicted = {c for c in predicted if not c.startswith("vaforward")}
     rpred = set(b.get("rdis", []))
+    zpred = sorted(c for c in predicted | rpred if c.endswith(":agg0"))
+    upred = {c for c in predicted | rpred if c.endswith(":unaligned")}
+    retoff = bool(b.get("retoff")) and bool(rpred)      # the return kind alone already takes both sides out (hidden pointer)
     fails = 0
     for l in LINKINGS[:3]:
         if case.fwd and l == ("cc", "gcc"):
             continue        # chibicc's walker on gcc's va_list: not modelled (see NOTES), not judged
+        if case.same and l != ("cc", "cc"):
+            continue        # one translation unit: caller and callee are both the callers' compiler's
         r = results.get(l)
         if r is None:
             raise Infra("no result for %s %s" % (case.key(), l))
@@ -732,14 +1058,28 @@ def judge(ctx, case, results):
         if what is None:
             continue
         fails += 1
-        ln = "%s>%s" % l + (":fwd" if case.fwd else "")
+        ln = "%s>%s" % l + (":fwd" if case.fwd else "")       # (a same-translation-unit case is cc>cc; its key ends in :same)
         retbad = what == "r" and r[0] == "ok" and r[1].get("r", [])[1:-1] != exp["r"][1:-1]
         if what == "r" and r[0] == "ok" and r[1].get("r", [None])[:1] == [0]:
             cls = "callee-saved-register-clobbered"
         elif what == "r" and r[0] == "ok" and r[1].get("r", [None])[:1] == [2]:
             cls = "fp-control-state-changed"
+        elif retoff:
+            cls = pick_class(rpred, l, [])
         elif what == "x":
             cls = "ret-rax-not-hidden-pointer"
+        elif what == "compile" and (zpred or has_zero(case)):
+            # a zero-sized aggregate in the signature: while the zero-size finding is open the model predicts the
+            # deviation (and the compiler in fact dies); otherwise the root cause is still named
+            cls = zpred[0] if zpred else "compile:agg0"
+        elif what == "compile" and upred and not side_ok[l]:
+            # a packed aggregate whose unaligned field straddles the two eightbytes: while the finding is open the model
+            # predicts the deviation, and the compiler in fact dies in the register-return paths (size asserts)
+            cls = pick_class(upred, l, [])
+        elif case.place and what == "crash" and (side_ok[l] or not predicted):
+            # the only difference to the same case with its objects in the frame is where the objects live: an access
+            # reached beyond (end) or before (start) the object of this site
+            cls = "extent:%s:%s" % (case.place, case.pkind())
         elif retbad and rpred:
             cls = pick_class(rpred, l, [])
         elif side_ok[l] or not predicted:
@@ -757,17 +1097,17 @@ def judge(ctx, case, results):
             cls = pick_class(pl, l, ["vaarg", "vastart", "vaforward"] if what == "w" else [])
         ctx.report("replay:%s:%s" % (ln, cls),
                    "%s linked %s: expected %s got %s" % (case.key(), ln, exp, str(r)[:400]),
-                   case=dict(kind="sig", beh=b, ctx=case.ctx, fwd=case.fwd, probe=case.probe, linking=ln, expected=exp, got=str(r)[:2000]))
+                   case=dict(kind="sig", beh=b, ctx=case.ctx, fwd=case.fwd, probe=case.probe, place=case.place, same=case.same, linking=ln, expected=exp, got=str(r)[:2000]))
     if (predicted or rpred) and not fails:
         ctx.cov["predicted_but_passing"] = ctx.cov.get("predicted_but_passing", 0) + 1
-    ctx.cov["traces_validated_against_impl"] += 3
+    ctx.cov["traces_validated_against_impl"] += 1 if case.same else 3
 
 
 # ------------------------------------------------------------------ run
 # Each open finding stands for one pinned decider in the model: while the finding is open its classes are
 # waived and the model transcribes the pinned code (Fix* = FALSE); once it is no longer open (status
 # fixed / entry removed) the model transcribes the repaired code and nothing is waived for it.
-FIX_FLAG = {"C06-ret-rax": "FixRetRax", "C06-vastart": "FixVaArea", "C06-align16": "FixAlign16",
+FIX_FLAG = {"C06-packed-unaligned": "FixPacked", "C06-ret-load-overrun": "FixRetLoad", "C06-zero-size": "FixZero", "C06-ret-rax": "FixRetRax", "C06-vastart": "FixVaArea", "C06-align16": "FixAlign16",
             "C06-valist-layout": "FixVaStride", "D22": "FixVaArg", "C06-x87agg": "FixX87"}
 
 
@@ -787,14 +1127,18 @@ def waived_classes(ctx):
 
 
 def tlc_run(ctx, cfgname, out=None, workers=4, **over):
+    return ctx.tlc("abi", "SysV", sysv_cfg(ctx, cfgname, **over), env=dict(OUT=out or os.devnull), workers=workers, timeout=900, heap="4g")
+
+
+def sysv_cfg(ctx, cfgname, **over):
     ids = open_findings(ctx)
     w = waived_classes(ctx)
     flags = {flag: fid not in ids for fid, flag in FIX_FLAG.items()}
     flags["FixVaArgLd"] = "vaarg:ldouble" not in w        # D22 has two halves; the long double half can be closed on its own
     flags["FixVaArg"] = not ({"vaarg:agg<=8", "vaarg:agg<=16"} & w)
+    flags["Waived"] = "{" + ",".join('"%s"' % x for x in sorted(w)) + "}"
     flags.update(over)
-    cfg = ctx.cfg("abi", cfgname, Waived="{" + ",".join('"%s"' % x for x in sorted(w)) + "}", **flags)
-    return ctx.tlc("abi", "SysV", cfg, env=dict(OUT=out or os.devnull), workers=workers, timeout=900, heap="4g")
+    return ctx.cfg("abi", cfgname, **flags)
 
 
 def check_model(ctx, res, cfgname):
@@ -818,7 +1162,9 @@ def select(ctx, beh, stride, per_class=2):
     sel = vt.subsample(both, ctx.seed, stride) + vt.subsample(one, ctx.seed, 2 * stride)
     seen = {}
     for b in vt.subsample(none + one, ctx.seed, max(1, stride // 8)):
-        k = tuple(sorted(b["dis"] + b["fdis"]))
+        k = tuple(sorted(b["dis"] + b["fdis"] + (b["rdis"] if b.get("retoff") else [])))
+        if b.get("retoff"):
+            k = (b["ret"],) + k              # (every such return kind is replayed)
         if k and seen.get(k, 0) < per_class:
             seen[k] = seen.get(k, 0) + 1
             sel.append(b)
@@ -868,15 +1214,65 @@ def make_cases(beh, seed, probes=()):
     return cases
 
 
-def small_models(ctx):
-    """ArgConv.tla and RetSlot.tla: model check (+ sensitivity controls), return the emitted behaviours"""
+def placed(sigs, rets):
+    """The placement family - every kind of the alphabet at every site, at both page boundaries, in every tier
+    and for every seed: `f(k)` and `f(int, ... k)` with the caller's argument objects at the boundary, every
+    return kind with the callee's returned object / the caller's destination at the boundary, and the object
+    that receives `va_arg(ap, k)`."""
+    out, seen = [], set()
+
+    def add(b, places):
+        for pl in places:
+            k = (b["ret"], b["nfix"], tuple(b["args"]), pl)
+            if k not in seen:
+                seen.add(k)
+                out.append(Case(0, b, "d0", False, False, pl))
+    for b in sigs:
+        if len(b["args"]) == 1 and b["nfix"] == 1:
+            add(b, ["arg:end", "arg:start"])
+        elif len(b["args"]) == 2 and b["nfix"] == 1 and b["args"][0] == "i":
+            add(b, ["arg:end", "dst:end", "dst:start"])
+    for b in rets:
+        if b["args"] == ["i"] and b["nfix"] == 1 and b["ret"] != "v" and b["ret"] not in NARROW:
+            add(b, ["ret:end", "ret:start", "dst:end"])
+    return out
+
+
+def same_tu(sigs, rets):
+    """The placement of the callee's DEFINITION: every parameter kind as `f(k)`, every return
+    kind as `k f(int)`, with caller and callee in one translation unit (the definition after / before the call) - "between
+    two chibicc-compiled functions" also means two functions of one file.  Every tier, every seed."""
+    out, seen = [], set()
+    for b in sigs + rets:
+        if len(b["args"]) == 1 and b["nfix"] == 1:
+            k = (b["ret"], b["nfix"], tuple(b["args"]))
+            if k not in seen:
+                seen.add(k)
+                out.append(Case(0, b, CTXS[len(out) % len(CTXS)], False, False, None, True))
+    return out
+
+
+def has_zero(case):
+    return any(k in ZERO for k in case.args + [case.ret])
+
+
+SMALL = (("ArgConv", 1000), ("RetSlot", 14), ("RetTemps", 9), ("FpCtl", 9), ("ArgEval", 800), ("NarrowRet", 2000))
+
+
+def small_models(ctx, mods=None):
+    """the small models: model check (+ sensitivity controls), return the emitted behaviours"""
     out = {}
-    for mod, floor in (("ArgConv", 1000), ("RetSlot", 14), ("RetTemps", 9), ("FpCtl", 9)):
+    for mod, floor in SMALL:
+        if mods is not None and mod not in mods:
+            continue
         ctl = ctx.tlc("abi", mod, mod + "_pinned.cfg", env=dict(OUT=os.devnull), workers=2, timeout=300, count=False)
         if ctl.ok:
             raise Infra("sensitivity control failed: TLC accepts %s_pinned.cfg" % mod)
         o = os.path.join(ctx.scratch, mod + ".ndjson")
-        res = ctx.tlc("abi", mod, mod + ".cfg", env=dict(OUT=o), workers=2, timeout=300)
+        cfg = mod + ".cfg"
+        if mod == "ArgEval" and not ctx.quick:       # thorough: two non-local arguments per call
+            cfg = ctx.cfg("abi", cfg, MaxActive=2)
+        res = ctx.tlc("abi", mod, cfg, env=dict(OUT=o), workers=2, timeout=600)
         if not res.ok:
             p = ctx.replay_dir("tlc-" + mod)
             open(p + "/counterexample.txt", "w").write(res.trace_text())
@@ -905,31 +1301,79 @@ def small_cases(sm):
     return conv, slot
 
 
+def narrow_cases(sm):
+    ng = {}
+    for v in sm["NarrowRet"]:
+        ng.setdefault((v["ty"], v["place"], v["prod"]), []).append(v)
+    return [NarrowCase(t, pl, pr, ng[(t, pl, pr)]) for (t, pl, pr) in sorted(ng)]
+
+
+def src_cases(ctx, sm):
+    """ArgEval's behaviours: every signature with the plain designator, a seed-chosen part (thorough: all) of those
+    with another designator form; -> (default code model, -fPIC shared object)"""
+    rows = sorted(sm["ArgEval"], key=lambda b: json.dumps(b, sort_keys=True))
+    direct = [b for b in rows if b["desig"] == "direct"]
+    other = [b for b in rows if b["desig"] != "direct"]
+    out = []
+    for mode in ("exe", "pic"):          # (the stride is coprime to the number of designator forms)
+        sel = [b for b in direct if b["mode"] == mode] + vt.subsample([b for b in other if b["mode"] == mode], ctx.seed, 5 if ctx.quick else 1)
+        out.append([SrcCase(b) for b in sel])
+    return out
+
+
 def run(ctx):
     q = ctx.quick
     RAXPROBE[0] = "C06-ret-rax" not in open_findings(ctx)
     tree = ctx.build()
     ctx.phase("build")
-    # sensitivity control: the pinned deciders must be rejected
-    for flag in (["FixOffset"] if q else ["FixOffset", "FixPhantom", "FixLE"]):
+    # sensitivity controls: the pinned deciders must be rejected (the configurations are written here, the runs
+    # happen in the side thread, beside the allocator graph, together with the small models)
+    ctls = []
+    for flag in (["FixOffset", "FixRetLoad", "FixZero"] if q else ["FixOffset", "FixPhantom", "FixLE", "FixRetLoad", "FixZero"]):
         over = {"FixOffset": True, flag: False}
-        ctl = tlc_run(ctx, "SysV_pinned.cfg", **over)
-        if ctl.ok:
-            raise Infra("sensitivity control failed: TLC accepts the deciders with %s = FALSE" % flag)
-    ctx.phase("control")
-    # exhaustive checks + generation (the two small models run beside the allocator graph)
+        if flag == "FixRetLoad":      # the second-eightbyte load of `return` reaches beyond a 12-byte object
+            over.update(RetSel='{"Sfff"}', ParamSel='{"i"}', MaxLen=1, Waived="{}")
+        if flag == "FixZero":         # a zero-sized argument is charged a register
+            over.update(ParamSel='{"i","S0"}', MaxLen=2, Waived="{}")
+        ctls.append((flag, sysv_cfg(ctx, "SysV_pinned.cfg", **over)))
+
+    # Two side threads beside the allocator graph: the controls and the small models, and - as soon as a model has
+    # written its behaviours - the compilation and execution of its replay family (judged later, in this thread).
+    def side_a():
+        for flag, cfg in ctls:
+            ctl = ctx.tlc("abi", "SysV", cfg, env=dict(OUT=os.devnull), workers=2, timeout=900, heap="4g", count=False)
+            if ctl.ok:
+                raise Infra("sensitivity control failed: TLC accepts the deciders with %s = FALSE" % flag)
+        sm = small_models(ctx, ("ArgConv", "RetSlot"))
+        return sm
+
+    def side_b():
+        sm = small_models(ctx, ("ArgEval", "NarrowRet", "RetTemps", "FpCtl"))
+        # source form of every argument and of the designator, in the default code model and as -fPIC code in a shared object
+        sexe, spic = src_cases(ctx, sm)
+        if len(sexe) < 100 or len(spic) < 100:
+            raise Infra("argument-source family has only %d + %d cases" % (len(sexe), len(spic)))
+        nar = narrow_cases(sm)
+        r4 = run_cases(ctx, tree, sexe, "srcexe", size=60)
+        r4.update(run_cases(ctx, tree, spic, "srcpic", size=60, pic=True))
+        r4.update(run_cases(ctx, tree, nar, "narrow", size=33))
+        return sm, sexe, spic, nar, r4
     import concurrent.futures
-    pool = concurrent.futures.ThreadPoolExecutor(1)
-    smf = pool.submit(small_models, ctx)
+    pool = concurrent.futures.ThreadPoolExecutor(2)
+    smfa, smfb = pool.submit(side_a), pool.submit(side_b)
     outs = {}
     # quick: the allocator graph over one kind per (class vector, size bucket, alignment); the kinds left out
     # (l p Sc3 Sff Sdd Sif Udl Sc16) are in every signature of length <= 2 below.  thorough: all 22.
-    qkinds = '{"i","f","d","e","Si","Sd","Sfff","Sld","Sdl","Sll","S24","Se","See","Sel"}'
-    for name, over in (("graph", dict(ParamSel=qkinds) if q else {}), ("sigs", dict(MaxLen=2 if q else 3)), ("rets", {})):
+    qkinds = '{"i","f","d","e","Si","Sd","Sfff","Sld","Sdl","Sll","S24","Se","See","Sel","S0"}'
+    # thorough signatures (length 3): without the near-duplicates of the zero-sized kinds (all kinds are in the length-2 signatures)
+    tkinds = "{" + ",".join('"%s"' % k for k in KT if k not in NARROW and k != "v" and k not in ("U0", "S0w", "S0i", "Sd0")) + "}"
+    for name, over in (("graph", dict(ParamSel=qkinds) if q else {}), ("sigs", dict(MaxLen=2) if q else dict(MaxLen=3, ParamSel=tkinds)), ("rets", {})):
         outs[name] = os.path.join(ctx.scratch, name + ".ndjson")
         res = tlc_run(ctx, "SysV_%s.cfg" % name, outs[name], workers=8, **over)
         check_model(ctx, res, name)
-    sm = smf.result()
+    sm = smfa.result()
+    smb, sexe, spic, nar, r4 = smfb.result()
+    sm.update(smb)
     pool.shutdown()
     ctx.phase("tlc")
     if ctx.violations:           # the design itself is refuted; the generated set is incomplete
@@ -942,12 +1386,30 @@ def run(ctx):
     beh = select(ctx, graph, 120 if q else 6) + select(ctx, sigs, 16 if q else 8) + select(ctx, rets, 3 if q else 1)
     probes = strata(ctx, graph, 1 if q else 4) + strata(ctx, sigs, 1 if q else 2)
     cases = make_cases(beh, ctx.seed, probes)
+    pcases = placed(sigs, rets)
+    if len(pcases) < 200:
+        raise Infra("placement family has only %d cases" % len(pcases))
+    cases += pcases
+    scases = same_tu(sigs, rets)
+    if len(scases) < 60:
+        raise Infra("same-translation-unit family has only %d cases" % len(scases))
+    cases += scases
     b0 = beh[len(beh) // 2]
     ctx.sample(dict(kind="allocator-graph transition", signature=Case(0, b0).key(), psabi_locations=b0["locs"], al=b0["al"],
                     return_in=b0["rloc"], predicted_disagreements=b0["dis"]))
-    results = run_cases(ctx, tree, cases, "main")
+    # while the zero-size finding is open the compiler dies on those signatures: they get small batches of their own,
+    # so that the batches of all other cases are not bisected
+    zopen = "C06-zero-size" in open_findings(ctx)
+    popen = "C06-packed-unaligned" in open_findings(ctx)     # (likewise: returning a packed {char, double} kills the compiler)
+
+    def own(c):
+        return (zopen and has_zero(c)) or (popen and c.ret in STRADDLE)
+    zc = [c for c in cases if own(c)]
+    results = run_cases(ctx, tree, [c for c in cases if not own(c)], "main")
+    results.update(run_cases(ctx, tree, zc, "zero", size=6))
     for c in cases:
         judge(ctx, c, results.get(id(c), {}))
+    ctx.sample(dict(kind="object at a page boundary", case=pcases[len(pcases) // 3].key(), expected=pcases[len(pcases) // 3].expected()))
     # integer argument conversions (every pair of the 10 integer types x boundary values, register and stack)
     # and the return slot of MEMORY-class values (every call shape x callee flavour)
     conv, slot = small_cases(sm)
@@ -957,9 +1419,15 @@ def run(ctx):
     r3 = run_cases(ctx, tree, slot, "slot", size=28)
     for c in slot:
         judge_simple(ctx, c, r3.get(id(c), {}), c.key().split(":", 1)[0])
+    for c in sexe + spic:
+        judge_simple(ctx, c, r4.get(id(c), {}), "argsrc")
+    for c in nar:
+        judge_simple(ctx, c, r4.get(id(c), {}), "narrowret")
+    ctx.sample(dict(kind="narrow return value", case=nar[len(nar) // 2].key(), vectors=len(nar[len(nar) // 2].vecs)))
+    ctx.sample(dict(kind="argument source forms", case=spic[len(spic) // 2].key(), expected=spic[len(spic) // 2].expected()))
     ctx.sample(dict(kind="argument conversion", pair=conv[len(conv) // 2].key(), values=len(conv[0].vals), expected=conv[len(conv) // 2].expected()["r"][:6]))
     ctx.sample(dict(kind="return slot", case=slot[0].key(), expected=slot[0].expected()))
-    ncases = len(cases) + len(conv) + len(slot)
+    ncases = len(cases) + len(conv) + len(slot) + len(sexe) + len(spic) + len(nar)
     ctx.phase("replay")
     if ctx.oracle_disagreements > max(3, ncases // 50):
         raise Infra("gcc x gcc does not reproduce the expectation on %d of %d cases: the generator is broken (%s)"
@@ -972,19 +1440,20 @@ def run(ctx):
     return ctx.finish(
         rule="case = one TLC-emitted signature (allocator-graph transition from the shortest history, every signature of length <= MaxLen, every return kind) x call context (expression depth 0..3 / nested call / forwarded va_list), run in 3 linkings against the gcc x gcc reference; non-trivial = at least one argument; distinct = distinct (signature, context)",
         exhaustive=not q,
-        extra=dict(graph_transitions=len(graph), signatures=len(sigs), return_kinds=len(rets), cases_replayed=len(cases), fetch_strata_probed=len(probes)))
+        extra=dict(graph_transitions=len(graph), signatures=len(sigs), return_kinds=len(rets), cases_replayed=len(cases), fetch_strata_probed=len(probes),
+                   placed_at_page_boundary=len(pcases), same_translation_unit=len(scases)))
 
 
 def replay(ctx, path):
     c = json.load(open(os.path.join(path, "case.json")))
     c = c.get("case") or c
-    if c.get("kind") in ("argconv", "retslot", "rettemps", "fpctl", "tlc-small"):
+    if c.get("kind") in ("argconv", "retslot", "rettemps", "fpctl", "narrowret", "argsrc", "tlc-small"):
         sm = small_models(ctx)
         if c["kind"] != "tlc-small":
             tree = ctx.build()
             conv, slot = small_cases(sm)
-            sel = [x for x in conv + slot if x.key() == c["key"]]
-            rr = run_cases(ctx, tree, sel, "replay")
+            sel = [x for x in conv + slot + narrow_cases(sm) + [SrcCase(b) for b in sm["ArgEval"]] if x.key() == c["key"]]
+            rr = run_cases(ctx, tree, sel, "replay", pic=bool(sel) and getattr(sel[0], "mode", "") == "pic")
             for x in sel:
                 judge_simple(ctx, x, rr.get(id(x), {}), c["kind"])
     elif c.get("kind") == "tlc":
@@ -993,7 +1462,7 @@ def replay(ctx, path):
     else:
         tree = ctx.build()
         RAXPROBE[0] = "C06-ret-rax" not in open_findings(ctx)
-        case = Case(0, c["beh"], c.get("ctx", "d0"), c.get("fwd", False), c.get("probe", False))
+        case = Case(0, c["beh"], c.get("ctx", "d0"), c.get("fwd", False), c.get("probe", False), c.get("place"), c.get("same", False))
         results = run_cases(ctx, tree, [case], "replay")
         judge(ctx, case, results.get(id(case), {}))
     return ctx.finish(rule="replay of one recorded case")
